@@ -100,6 +100,12 @@ def run(seed=0):
                 check(f"isfinite/{flav}", P.isfinite(A), _np.isfinite(a))
                 check(f"isinf/{flav}", P.isinf(A), _np.isinf(a))
                 check(f"sign/{flav}", P.sign(A), _np.sign(a))
+                check(f"isneginf/{flav}", P.isneginf(A), _np.isneginf(a))
+                check(f"isposinf/{flav}", P.isposinf(A), _np.isposinf(a))
+                check(f"nan_to_num/{flav}", P.nan_to_num(A, nan=7.0, posinf=9.0, neginf=-9.0),
+                      _np.nan_to_num(a, nan=7.0, posinf=9.0, neginf=-9.0))
+                check(f"isclose/{flav}", P.isclose(A, B), _np.isclose(a, b))
+                check(f"allclose/{flav}", P.allclose(A, conv(a + 1e-12)), _np.allclose(a, a + 1e-12))
                 check(f"array_equal/{flav}", P.array_equal(A, B), _np.array_equal(a, b))
                 check(f"array_equal-self/{flav}", P.array_equal(A, conv(a.copy())), _np.array_equal(a, a.copy()))
                 check(f"count_nonzero/{flav}", P.count_nonzero(A), _np.count_nonzero(a))
